@@ -189,7 +189,17 @@ pub struct DepSpec {
 }
 
 impl DepSpec {
+    /// a dependency written as a struct literal with the given flag bits: the constructor name is "literal:<bits>"
+    pub fn literal(bits: u32, name: &str, version: &str) -> DepSpec {
+        DepSpec { ctor: Box::leak(format!("literal:{}", bits).into_boxed_str()), name: name.to_string(), version: version.to_string() }
+    }
+    fn literal_bits(&self) -> Option<u32> {
+        self.ctor.strip_prefix("literal:").and_then(|b| b.parse().ok())
+    }
     pub fn make(&self) -> Dependency {
+        if let Some(bits) = self.literal_bits() {
+            return Dependency { name: self.name.clone(), flags: rpm::DependencyFlags::from_bits_retain(bits), version: self.version.clone() };
+        }
         match self.ctor {
             "any" => Dependency::any(self.name.clone()),
             "eq" => Dependency::eq(self.name.clone(), self.version.clone()),
@@ -210,6 +220,9 @@ impl DepSpec {
     }
     /// (name, flag bits, version) as documented for each constructor
     pub fn expected(&self) -> (String, u32, String) {
+        if let Some(bits) = self.literal_bits() {
+            return (self.name.clone(), bits, self.version.clone());
+        }
         let (l, g, e) = (1u32 << 1, 1u32 << 2, 1u32 << 3);
         match self.ctor {
             "any" => (self.name.clone(), 0, String::new()),
